@@ -87,7 +87,9 @@ Load(m, d) ==
 
 \* a read-only process that loaded before the journal existed binds on the first Read after the manifest appeared
 BindLate(d) == \* returns <<proot, pvis, bound, warn>>
-    IF d.mexists /\ d.jexists THEN <<d.mroot, d.jroots, TRUE, d.idx = "bad">> ELSE <<0, 0, FALSE, FALSE>>
+    \* (a bad index is ignored here too, but this path - ChunkJournal.Open -> maybeInit - reports it through the logging
+    \*  callback JournalParserLoggingWarningsCb, not through the callback the store was opened with: warn = FALSE)
+    IF d.mexists /\ d.jexists THEN <<d.mroot, d.jroots, TRUE, FALSE>> ELSE <<0, 0, FALSE, FALSE>>
 
 Rec(p, a, args, res, warn, ro) ==
     IF RecordHist
